@@ -100,6 +100,12 @@ class RecomputingDict(MutableMapping[RuleKey, AbstractStrategy]):
                 else:
                     rule = x
                 try:
+                    if any(
+                        c not in self.classdb
+                        for c in (rule.comb_class,) + tuple(rule.children)
+                    ):
+                        # a rule over classes the search never labelled was not stored
+                        continue
                     start_label = self.classdb.get_label(rule.comb_class)
                     nonempty_children = tuple(
                         c for c in rule.children if not self.classdb.is_empty(c)
